@@ -137,10 +137,10 @@ def partitions(tier, seed):
         else:
             strlen = 3 if nstr <= 1 else 2
             if has_table and nstr >= 2:
-                parts.append(_method_part(m, strlen, 900, '_a', with_table=False))
-                parts.append(_method_part(m, 1, 900, '_full'))
+                parts.append(_method_part(m, strlen, 480, '_a', with_table=False))
+                parts.append(_method_part(m, 1, 480, '_full'))
             else:
-                parts.append(_method_part(m, strlen, 900))
+                parts.append(_method_part(m, strlen, 480))
     # content header: bytes are compared inside C02's roundtrip(); reuse its partitions as encoder checks
     from harness import c02
     for p in c02.partitions(tier, seed):
@@ -176,7 +176,7 @@ def partitions(tier, seed):
                       rep={'ch': 1, 'a': 0, 'b': 9, 'c': 1}))
     for name, expr in TPLS.items():
         for sel in range(8):
-            parts.append(_table_part(name, expr, sel, 250 if q else 900, float_concrete=q))
+            parts.append(_table_part(name, expr, sel, 250 if q else 480, float_concrete=q))
     # two-key ordering and nesting come from the C03 templates, compared with the reference bytes
     parts.append(Part(name='enc_tbl_sorted', params=[('k0', 'str'), ('k1', 'str'), ('k2', 'str'), ('n', 'int')],
                       pre=['len(k0) == 1', 'len(k1) == 1', 'len(k2) == 1', 'k0 != k1', 'k0 != k2', 'k1 != k2',
@@ -184,7 +184,7 @@ def partitions(tier, seed):
                       body='def body(k0, k1, k2, n):\n'
                            '    v = hx.table([(k0, n), (k1, [hx.table([(k2, True), (k0, None)])]), (k2, "s")])\n'
                            '    return same_bytes(encode.field_table(v), ref.table(v, False, hx.single_bits, epoch_of))\n',
-                      prelude=PRE, timeout=280 if q else 900, family='enc_table',
+                      prelude=PRE, timeout=280 if q else 480, family='enc_table',
                       bound='3-key table with a nested 2-key table inside an array, keys 1 ASCII character (all orders)',
                       rep={'k0': 'b', 'k1': 'a', 'k2': 'c', 'n': 70000}))
     parts.append(Part(name='twin_enc_nack', params=[('ch', 'int'), ('tag', 'int')],
